@@ -65,11 +65,13 @@ M = [
     ("pn_window_boundary_strict", "C16", "tlexport/quic/quic_session.py",
      "        if candidate_pkn <= expected_pkn - pkn_hwindow and", "        if candidate_pkn < expected_pkn - pkn_hwindow and"),
     ("pn_largest_stored_in_wrong_direction", "C16,C02", "tlexport/quic/quic_session.py",
-     "        if out_pkn > largest_pkn:\n            if quic_packet.isserver:\n                self.packet_number_server[PACKET_TYPE_MAP[quic_packet.packet_type]] = out_pkn\n            else:\n                self.packet_number_client[PACKET_TYPE_MAP[quic_packet.packet_type]] = out_pkn",
-     "        if out_pkn > largest_pkn:\n            if quic_packet.isserver and quic_packet.packet_type != QuicPacketType.HANDSHAKE:\n                self.packet_number_server[PACKET_TYPE_MAP[quic_packet.packet_type]] = out_pkn\n            else:\n                self.packet_number_client[PACKET_TYPE_MAP[quic_packet.packet_type]] = out_pkn"),
+     "        spaces = self.packet_number_server if quic_packet.isserver else self.packet_number_client\n        space = PACKET_TYPE_MAP[quic_packet.packet_type]\n        spaces[space] = max(",
+     "        spaces = self.packet_number_server if (quic_packet.isserver and quic_packet.packet_type != QuicPacketType.HANDSHAKE) else self.packet_number_client\n        space = PACKET_TYPE_MAP[quic_packet.packet_type]\n        spaces[space] = max("),
     ("cid_set_iteration_reintroduced", "C18,C02", "tlexport/quic/quic_session.py",
      "        for cid in sorted(candidates, key=len, reverse=True):\n            if len(cid) > 0 and cid == packet.tls_data[1:1 + len(cid)]:",
      "        for cid in set(self.client_cids) | set(self.server_cids):\n            if cid == packet.tls_data[1:1 + len(cid)]:"),
+    ("retry_id_matches_short_headers_again", "C02", "tlexport/quic/quic_session.py",
+     "            candidates = self.server_cids - self.handshake_only_cids\n", "            candidates = self.server_cids\n"),
     ("module_state_sessions_not_cleared", "C18", "tlexport/main.py",
      "    keylog.clear()\n    sessions.clear()\n", "    keylog.clear()\n"),
     ("quic_short_header_mask_bits", "C02", "tlexport/quic/quic_dissector.py",
